@@ -349,16 +349,21 @@ class LinearPaths:
     return merged, first_reversed, last_reversed
 
   def __link_merged(self, merged_name, segment_end, is_reversed):
-    to_disconnect = self.segment(segment_end.segment).dovetails_of_end(
-                                                 segment_end.end_type)
+    to_disconnect = []
+    for l in self.segment(segment_end.segment).dovetails_of_end(
+                                                 segment_end.end_type):
+      # a link of the end with itself is listed twice
+      if not any(l is d for d in to_disconnect):
+        to_disconnect.append(l)
     to_add = []
     for l in to_disconnect:
       l2 = l.clone()
-      if l2.to_segment == segment_end.segment:
+      is_to = (l2.to_segment == segment_end.segment)
+      if is_to:
         l2.to_segment = merged_name
         if is_reversed:
           l2.to_orient = gfapy.invert(l2.to_orient)
-      else:
+      if not is_to or l.is_circular_same_end():
         l2.from_segment = merged_name
         if is_reversed:
           l2.from_orient = gfapy.invert(l2.from_orient)
